@@ -222,7 +222,7 @@ fn is_irrelevant(c: &AuthCase, id: &str) -> bool {
 pub fn property_c16() -> Property {
     Property {
         id: "C16",
-        rule: "Schema-G biased to entity-typed attributes, tags and context fields (chains and cycles), 1..3 (thorough 1..5) strictly valid Policy-T policies with access paths up to 4 levels deep (incl. `if` producing entities, tags, record literals projected right away), \
+        rule: "Schema-G biased to entity-typed attributes, tags and context fields (chains and cycles), 1..3 (thorough 1..5) strictly valid Policy-T policies with access paths up to 4 levels deep, attribute access on if-then-else of entities with branches of different depth and on projected record literals with sibling fields, `in` against access paths, no dereference of entity literals (incl. `if` producing entities, tags, record literals projected right away), \
                World-S store and request. For n in 0..4: if validate_with_level(n) passes, authorization over the level-n slice computed by the harness (entities with a record reachable from principal/action/resource/context uids in fewer than n attribute/tag hops, each kept with attributes, tags and full ancestor set) \
                must give the same decision, reasons and error ids as the full store; acceptance is monotone in n. Non-trivial = the minimal accepted level is >=1 and its slice is a proper subset of the store.",
         assumptions: &["harness level slicer (from RFC 76: the smallest store the guarantee speaks about)", "World-S conformance"],
@@ -233,7 +233,7 @@ pub fn property_c16() -> Property {
 pub fn property_c17() -> Property {
     Property {
         id: "C17",
-        rule: "same generator as C16 (strict validation only). compute_entity_manifest, then core EntityManifest::slice_entities(store, request); authorization over the sliced store must give the same decision, reasons and error ids as over the full store. \
+        rule: "same generator as C16 (strict validation only; 1/8 of the schemas with tags; membership tests of one subject against an access path and an extension of it; dense stores). compute_entity_manifest, then core EntityManifest::slice_entities(store, request); authorization over the sliced store must give the same decision, reasons and error ids as over the full store. \
                Manifest computation refusing a policy (entity tags and other documented unsupported features) is a counted skip. Non-trivial = the slice is a proper subset of the store and some policy dereferences an entity.",
         assumptions: &["World-S conformance", "manifest computation errors for documented unsupported features are skips"],
         subs: vec![SubCheck { name: "manifest", cases: (300_000, 6_000_000), tape_len: 4000, run: manifest_case, min_labels: &[("manifest-ok", 180_000), ("proper-slice", 120_000), ("has-guards", 60_000), ("in-path-and-in-its-extension", 6000), ("manifest-skip:tags", 1500)] }],
